@@ -5,6 +5,7 @@ import (
 	"math/rand/v2"
 	"strings"
 	"syscall"
+	"time"
 
 	"verif/internal/fsx"
 	"verif/internal/gen"
@@ -67,6 +68,9 @@ func c02Class(o fsx.Op, hd c02Handle, pos, size int64) string {
 	}
 	return s
 }
+
+// c02Sentinel is the old modification time given to every name before a step.
+var c02Sentinel = time.Unix(1_000_000_000, 0)
 
 func c02Scenario(c *rt.Ctx, fsType string, r *rand.Rand, prog []fsx.Op, exhaustiveFlags int) {
 	l := &lockstep{c: c, fsType: fsType, symSize: true}
@@ -163,6 +167,18 @@ func c02Scenario(c *rt.Ctx, fsType string, r *rand.Rand, prog []fsx.Op, exhausti
 			c.Rep.Count("empty_writeat_on_closed_handle_not_compared", 1)
 			continue
 		}
+		// modification times: both sides get an old sentinel time on every name before the step; afterwards a name
+		// either still carries it or not (which calls update the time, not what the clock said)
+		sameSizeTruncate := false
+		for _, n := range names {
+			_ = l.emu.FS.Chtimes(n, c02Sentinel, c02Sentinel)
+			_ = l.osx.FS.Chtimes(n, c02Sentinel, c02Sentinel)
+			if fi, err := l.osx.FS.Lstat(n); err == nil && o.K == "Truncate" && o.P == n && fi.Size() == o.N {
+				// truncate(2) to the size the file already has: POSIX marks the time for update only "if the file size is
+				// changed"; tmpfs does it anyway when the file has pages allocated, ext4 does not. Not compared.
+				sameSizeTruncate = true
+			}
+		}
 		a := l.emu.Exec(o)
 		b := l.osx.Exec(o)
 		hist = append(hist, o.String()+" -> "+a.String())
@@ -216,6 +232,22 @@ func c02Scenario(c *rt.Ctx, fsType string, r *rand.Rand, prog []fsx.Op, exhausti
 		if sa.String() != sb.String() {
 			c.Disagree(fmt.Sprintf("%s|%s|%s|tree:%s", fsType, cls, a.Err, diffKind(sa, sb)), fmt.Sprintf("%s: after %s the files differ from Linux: %v", fsType, o, fsx.Diff(sa, sb, false, 6)), replay())
 			return
+		}
+		if sameSizeTruncate {
+			c.Rep.Count("mtime_of_same_size_truncate_not_compared", 1)
+		}
+		for _, n := range names {
+			fa, ea := l.emu.FS.Lstat(n)
+			fb, eb := l.osx.FS.Lstat(n)
+			if ea != nil || eb != nil || sameSizeTruncate {
+				continue
+			}
+			ta, tb := !fa.ModTime().Equal(c02Sentinel), !fb.ModTime().Equal(c02Sentinel)
+			c.Rep.Case(fmt.Sprintf("%s|%s|%s|mtime-updated=%v", fsType, cls, a.Err, tb), i > 0)
+			if ta != tb {
+				c.Disagree(fmt.Sprintf("%s|%s|%s|mtime-updated:emu=%v,os=%v", fsType, cls, a.Err, ta, tb), fmt.Sprintf("%s: after %s the modification time of %s was updated: %v; with os.File on Linux: %v", fsType, o, n, ta, tb), replay())
+				return
+			}
 		}
 	}
 	c.Rep.Count("complete_scenarios", 1)
